@@ -1464,6 +1464,7 @@ class Operation(_IRNode):
             or len(self.results) != len(other.results)
             or len(self.regions) != len(other.regions)
             or len(self.successors) != len(other.successors)
+            or self.result_types != other.result_types
             or self.attributes != other.attributes
             or self.properties != other.properties
         ):
